@@ -13,9 +13,9 @@ import (
 
 func TestC03(t *testing.T) {
 	nrun.Main(t, &nrun.Check{
-		ID: "C03", TestName: "TestC03", Plans: bscen.Plans(),
+		ID: "C03", TestName: "TestC03", Plans: append(bscen.Plans(), bscen.GenPlans()...),
 		QuickTime: 60 * time.Second, ThorTime: 12 * time.Minute,
-		Rule: "two parts. Engine S: every interleaving within the deviation bound (each departure from the default thread schedule costs 1) of two producers (blocking Produce, TryProduce, a cancelable blocked Produce), a completer that promises in-flight records as a sink would, Flush callers and a canceller over Client.produce / promiseBatch / finishPromises / finishRecordPromise / Flush and the promise ring extracted from the current tree, at the granularity of every mutex, cond, atomic and channel operation. Engine N: every order of application calls, produce request/response deliveries, timer ticks and faults (kill before/after, NOT_LEADER, stall) within k deviations of the default order on the real client and kfake, for MaxBufferedRecords 1 and 2, MaxBufferedBytes, linger and ManualFlushing; admission rules judged per produce call, Flush rules per Flush return. distinct = distinct per-record outcome vectors",
+		Rule: "two parts. Engine S: every interleaving within the deviation bound (each departure from the default thread schedule costs 1) of two producers (blocking Produce, TryProduce, a cancelable blocked Produce), a completer that promises in-flight records as a sink would, Flush callers and a canceller over Client.produce / promiseBatch / finishPromises / finishRecordPromise / Flush and the promise ring extracted from the current tree, at the granularity of every mutex, cond, atomic and channel operation. Engine N: every order of application calls, produce request/response deliveries, timer ticks and faults (kill before/after, NOT_LEADER, stall) within k deviations of the default order on the real client and kfake, for MaxBufferedRecords 1 and 2, MaxBufferedBytes, linger and ManualFlushing; admission rules judged per produce call, Flush rules per Flush return; plus the generated family BG on the default schedule (thorough: every single deviation, time-capped): every combination of 6 limit configurations (MaxBufferedRecords 1 / 2 / 2+linger, MaxBufferedBytes, ManualFlushing with either limit) x every 3-call script of producer P1 over {Produce, TryProduce, Produce with a cancellable context} x 3 (thorough: all 9) 2-call scripts of producer P2 x 0/1/2 Flush calls x the position where the Flush thread starts. distinct = distinct per-record outcome vectors",
 		Assume: []string{"kfake is the broker (N part)", "synctests build of xsync (N part)", "S part: vrt primitives are faithful; stubs stand for config, logger, pools and the partitioning path (loadPartsAndPartition = put on an in-flight queue)"},
 		Extra: func(r *ev.Run) {
 			if p := os.Getenv("C03S_OUT"); p != "" {
